@@ -30,6 +30,10 @@ pub fn pick(v: &[usize], all: bool) -> Vec<usize> {
     vec![v[0], v[v.len() / 2], v[v.len() - 1]]
 }
 
+fn h64(s: &str) -> u64 {
+    s.bytes().fold(0xcbf29ce484222325u64, |x, b| (x ^ b as u64).wrapping_mul(0x100000001b3))
+}
+
 fn one(c: usize, to: usize, label: &str, k: usize, what: What, seed: u64) -> FaultPlan {
     FaultPlan { corrupt: c, actions: vec![FaultAction { target: Target { from: c, to: Some(to), label: label.to_string(), k: Some(k) }, what }], crash: None, seed }
 }
@@ -147,7 +151,16 @@ pub fn catalogue(w: &World, tier: &str, seed: u64, reps: usize) -> Vec<FaultCase
             // evaluator's MAC check can notice
             if c != cfg.p_eval && !cfg.name.ends_with("-ops") {
                 let plan = FaultPlan { corrupt: c, actions: vec![], crash: None, seed: seed ^ 0x7a9 ^ ((ci as u64) << 40) ^ ((c as u64) << 32) };
-                push(plan, "tap:garble.row_bit:all-rows".into(), "tap:garble.row_bit", vec![cfg.p_eval], false, Some(("garble.row_bit".into(), usize::MAX)));
+                push(plan.clone(), "tap:garble.row_bit:all-rows".into(), "tap:garble.row_bit", vec![cfg.p_eval], false, Some(("garble.row_bit".into(), usize::MAX)));
+                // rows re-built by the garbler: bit flipped, label share shifted consistently, MAC list
+                // complete / cut to one entry / empty
+                if !cfg.name.ends_with("-big") {
+                    for mode in ["allmacs", "onemac", "nomac"] {
+                        let mut p2 = plan.clone();
+                        p2.seed ^= h64(mode);
+                        push(p2, format!("tap:garble.row_plain:rebuilt-row-{mode}"), "tap:garble.row_plain", vec![cfg.p_eval], true, Some((format!("garble.row_plain#{mode}"), usize::MAX)));
+                    }
+                }
             }
         }
     }
@@ -166,7 +179,7 @@ pub fn child(tier: &str, seed: u64, a: shard::ShardArgs) {
 
 pub fn run(tier: &str, seed: u64) -> i32 {
     let mut rep = Report::new("C03", tier, seed, "fault_enumeration");
-    rep.rule = "catalogue of forged authenticated online-phase fields: mask-share bit / MAC in 'wire shares' and 'output wire shares', input labels (random flip and the other valid label label^delta_c; every label of a circuit whose input wires are used only as first resp. only as second operand of AND gates), bytes of all four rows of a garbled gate (body and Poly1305 tag), a wrong share bit garbled into every row (tap), the evaluator's revealed value / label in 'lambda', masked inputs differing per recipient and altered echo hashes (n=3); per register position (first/mid/last quick, all thorough), corrupted role, victim role, n in {2,3}. Oracle: the honest recipient that consumes the field returns Err. distinct = (configuration, corrupted party, victim, label, forged field class); non-trivial = the forged field was delivered to the victim".into();
+    rep.rule = "catalogue of forged authenticated online-phase fields: mask-share bit / MAC in 'wire shares' and 'output wire shares', input labels (random flip and the other valid label label^delta_c; every label of a circuit whose input wires are used only as first resp. only as second operand of AND gates), bytes of all four rows of a garbled gate (body and Poly1305 tag), a wrong share bit garbled into every row (tap) and rows re-built by the garbler with the bit flipped, the label share shifted consistently and the MAC list complete / cut to one entry / empty (tap on the serialized row before encryption), the evaluator's revealed value / label in 'lambda', masked inputs differing per recipient and altered echo hashes (n=3); per register position (first/mid/last quick, all thorough), corrupted role, victim role, n in {2,3}. Oracle: the honest recipient that consumes the field returns Err. distinct = (configuration, corrupted party, victim, label, forged field class); non-trivial = the forged field was delivered to the victim".into();
     rep.assumptions = vec!["consumption is decided by the generator: fault circuits route every input into an AND gate and an output; all four rows of a gate are altered at the same byte".into()];
     let w = build(tier, seed);
     let mut hist = std::collections::BTreeMap::new();
